@@ -27,7 +27,7 @@ TRUSTED = [
 ASSUMPTIONS = [
     'operations of the overridden interface only (__getitem__ __setitem__ __contains__ __len__ __iter__); the inherited dict methods are known finding C15-inherited-dict',
     'capacity is a non-negative int and is not changed after construction',
-    'every modification of a file changes its mtime (logical clock); no modification happens during a load',
+    'every modification of a file changes its mtime (logical clock); a modification during a load is a replacement (new file renamed over the name) of the file the load opens, landing before or right after the open() of directory() (history op LR); in-place rewrites of a file that is being read are not covered',
 ]
 
 NKEYS = 3
@@ -245,9 +245,61 @@ def inherited_case(case):
 # --------------------------------------------------------------------------
 # loader histories
 
+def judge_load(bad, i, cfg, strict, run, spec, exp, kind, val, before, after):
+    """the clauses of the property for one load: expectation `exp` of the reference against what
+    the real loader did; returns a failure or None (may mark a touched key in the reference)"""
+    if run.lock_depth() != 0:
+        return bad(i, 'the lock is released on every exit', 0, run.lock_depth())
+    if not run.path_intact():
+        return bad(i, 'a load does not change the configured search path', len(cfg['path']),
+                   len(run.loader.search_path))
+    if after['len'] > cfg['cap']:
+        return bad(i, 'at most max_cache_size templates are cached', cfg['cap'], after['len'])
+    if exp['kind'] == 'ok':
+        if kind != 'ok':
+            return bad(i, 'load succeeds', 'a template with content v%d' % exp['content'], 'raises ' + val)
+        d = run.describe(val)
+        if d['content'] != exp['content'] or d['loc'] != tuple(exp['loc']):
+            return bad(i, 'returned template is parsed from the %s' % (
+                'current content of the file found first on the search path' if strict else
+                'current content of the file it came from / first on the path when parsed'),
+                {'content': exp['content'], 'file': list(exp['loc'])},
+                {'content': d['content'], 'file': list(d['loc'] or [])})
+        if d['obj'] != exp['serve'][1]:
+            return bad(i, 'object identity (%s)' % ('the same object while nothing changed'
+                       if exp['serve'][0] == 'cached' else 'a newly parsed template'),
+                       'template #%d' % exp['serve'][1], 'template #%d' % d['obj'])
+        if [(tuple(k), o) for k, o in after['order']] != exp['cache']:
+            return bad(i, 'cache contents, most recently used first (least recently used evicted first)',
+                       [[list(k), o] for k, o in exp['cache']], [[list(k or ()), o] for k, o in after['order']])
+    else:
+        if kind != 'err' or val != exp['err']:
+            return bad(i, 'load fails', exp['err'], val if kind == 'err' else 'returns a template')
+        if after['mapping'] != before['mapping'] or after['uptodate'] != before['uptodate']:
+            return bad(i, 'a failed load leaves the cache and _uptodate as they were',
+                       sorted(before['mapping']), sorted(after['mapping']))
+        if after['order'] != before['order']:
+            key = exp['key']
+            moved = [x for x in before['order'] if x[0] == key] + [x for x in before['order'] if x[0] != key]
+            if exp['touched'] and after['order'] == moved:
+                spec.touch_failed(key)      # the lookup counted as a use; nothing else changed
+            else:
+                return bad(i, 'a failed load leaves the cache order as it was (or only marks the requested key as used)',
+                           [[list(k), o] for k, o in before['order']], [[list(k or ()), o] for k, o in after['order']])
+    if len(run.inst_log) != exp['instantiated']:
+        return bad(i, 'number of templates parsed so far (a parse happens exactly when the template is not served from the cache)',
+                   exp['instantiated'], len(run.inst_log))
+    if cfg['callback'] and (len(run.cb_log) != len(run.inst_log) or
+                            any(a is not b for a, b in zip(run.cb_log, run.inst_log))):
+        return bad(i, 'the callback runs exactly once per parse, with the parsed template',
+                   'callbacks = parsed templates (%d)' % len(run.inst_log), '%d callbacks' % len(run.cb_log))
+    return None
+
+
 def run_history(cfg, ops, strict, root, want_answers=True):
     """the property oracle on the real loader for one history (+ what the real loader did, for
     the correspondence). Returns (failure-or-None, answers, stats)"""
+    import copy
     case = {'kind': 'hist', 'cfg': cfg, 'ops': ops, 'strict': strict}
     GL.validate(cfg, ops)
     run = GL.RealRun(cfg, root)
@@ -262,76 +314,57 @@ def run_history(cfg, ops, strict, root, want_answers=True):
                 'expected': expected, 'observed': observed}
     try:
         for i, op in enumerate(ops):
-            if op[0] != 'L':
+            if op[0] not in ('L', 'LR'):
                 spec.fs_op(op)
                 run.fs_op(op)
                 answers.append('U')
                 continue
             r = op[1]
-            before = run.snapshot()
-            exp = spec.load(r)
-            if exp is None:
+            key = GL.resolve(cfg, r)
+            if key is None:
                 answers.append('unmodelled')
                 continue
-            if exp['key'] not in seen:
-                seen.append(exp['key'])
-            kind, val = run.load(r)
-            after = run.snapshot()
-            if want_answers:
-                answers.append(GL.real_answer(run, kind, val, seen))
+            if key not in seen:
+                seen.append(key)
+            before = run.snapshot()
+            if op[0] == 'L':
+                exp = spec.load(r)
+                kind, val = run.load(r)
+                after = run.snapshot()
+                if want_answers:
+                    answers.append(GL.real_answer(run, kind, val, seen))
+                if not fail:
+                    fail = judge_load(bad, i, cfg, strict, run, spec, exp, kind, val, before, after)
+            else:
+                # a load during which the file it opens is replaced: the property holds if what
+                # happened is the load and the write in one of the two orders
+                kind, val, fired = run.load_race(r, op[2], op[3], op[4])
+                after = run.snapshot()
+                if want_answers:
+                    answers.append(GL.real_answer(run, kind, val, seen, fired=fired))
+                stats['race:' + ('no file opened' if fired is None else 'before open' if op[2] else 'after open')] += 1
+                first_fail = None
+                for first in (True, False):
+                    cand = copy.deepcopy(spec)
+                    exp, _ = cand.load_race(r, op[2], op[3], op[4], fired=fired, first=first)
+                    f = judge_load(bad, i, cfg, strict, run, cand, exp, kind, val, before, after)
+                    if f is None:
+                        first_fail = None
+                        break
+                    first_fail = first_fail or f
+                    if fired is None:
+                        break
+                spec = cand
+                if first_fail is not None:
+                    # neither order explains what happened
+                    fail = fail or first_fail
+                elif not first:
+                    stats['race:the other order'] += 1
             stats['load:' + (exp['kind'] if exp['kind'] == 'ok' else exp['err'])] += 1
             if exp['kind'] == 'ok':
                 stats['serve:' + exp['serve'][0]] += 1
-            if fail:
-                continue
-            # --- the clauses of the property
-            if run.lock_depth() != 0:
-                fail = bad(i, 'the lock is released on every exit', 0, run.lock_depth())
-            elif not run.path_intact():
-                fail = bad(i, 'a load does not change the configured search path', len(cfg['path']),
-                           len(run.loader.search_path))
-            elif after['len'] > cfg['cap']:
-                fail = bad(i, 'at most max_cache_size templates are cached', cfg['cap'], after['len'])
-            elif exp['kind'] == 'ok':
-                if kind != 'ok':
-                    fail = bad(i, 'load succeeds', 'a template with content v%d' % exp['content'], 'raises ' + val)
-                else:
-                    d = run.describe(val)
-                    if d['content'] != exp['content'] or d['loc'] != tuple(exp['loc']):
-                        fail = bad(i, 'returned template is parsed from the %s' % (
-                            'current content of the file found first on the search path' if strict else
-                            'current content of the file it came from / first on the path when parsed'),
-                            {'content': exp['content'], 'file': list(exp['loc'])},
-                            {'content': d['content'], 'file': list(d['loc'] or [])})
-                    elif d['obj'] != exp['serve'][1]:
-                        fail = bad(i, 'object identity (%s)' % ('the same object while nothing changed'
-                                   if exp['serve'][0] == 'cached' else 'a newly parsed template'),
-                                   'template #%d' % exp['serve'][1], 'template #%d' % d['obj'])
-                    elif [(tuple(k), o) for k, o in after['order']] != exp['cache']:
-                        fail = bad(i, 'cache contents, most recently used first (least recently used evicted first)',
-                                   [[list(k), o] for k, o in exp['cache']], [[list(k or ()), o] for k, o in after['order']])
-            else:
-                if kind != 'err' or val != exp['err']:
-                    fail = bad(i, 'load fails', exp['err'], val if kind == 'err' else 'returns a template')
-                elif after['mapping'] != before['mapping'] or after['uptodate'] != before['uptodate']:
-                    fail = bad(i, 'a failed load leaves the cache and _uptodate as they were',
-                               sorted(before['mapping']), sorted(after['mapping']))
-                elif after['order'] != before['order']:
-                    key = exp['key']
-                    moved = [x for x in before['order'] if x[0] == key] + [x for x in before['order'] if x[0] != key]
-                    if exp['touched'] and after['order'] == moved:
-                        spec.touch_failed(key)      # the lookup counted as a use; nothing else changed
-                        stats['failed-load-touched'] += 1
-                    else:
-                        fail = bad(i, 'a failed load leaves the cache order as it was (or only marks the requested key as used)',
-                                   [[list(k), o] for k, o in before['order']], [[list(k or ()), o] for k, o in after['order']])
-            if not fail and len(run.inst_log) != exp['instantiated']:
-                fail = bad(i, 'number of templates parsed so far (a parse happens exactly when the template is not served from the cache)',
-                           exp['instantiated'], len(run.inst_log))
-            elif not fail and cfg['callback'] and (len(run.cb_log) != len(run.inst_log) or
-                                      any(a is not b for a, b in zip(run.cb_log, run.inst_log))):
-                fail = bad(i, 'the callback runs exactly once per parse, with the parsed template',
-                           'callbacks = parsed templates (%d)' % len(run.inst_log), '%d callbacks' % len(run.cb_log))
+            elif exp.get('touched') and before['order'] != after['order']:
+                stats['failed-load-touched'] += 1
     finally:
         run.close()
     return fail, answers, stats
